@@ -498,3 +498,30 @@ Example C01_wire_nonvacuous :
   C01Wire.wire_tcp chmap out = [36; 4; 0; 3; 1; 2; 3; 36; 4; 0; 0]%Z /\
   C01Wire.model_client 0 chmap out = Some [(4, [1; 2; 3]); (4, [])]%Z.
 Proof. vm_compute. repeat split. Qed.
+
+(* ---- 10. several multicast players of one stream ------------------------------------------------
+   The multicast proxy is ONE consumer of the stream (the LTS theorems describe what it is handed);
+   it sends to the group while its member list is not empty, and a player hears the group between
+   its own join and leave (Proofs/C01McastMembersProofs.v: AddMember records every member,
+   ReleaseMember removes it, the last one leaving stops the proxy).  What player i receives is a
+   function of the publishes and of its own joins and leaves; other players' joins and leaves can
+   be deleted from the history.  With only the first member on record (the code before fix f25ada3)
+   this is false.  Checked on the real proxy by the multi-member cases of the stream "transports". *)
+From V Require Import C01McastMembersProofs.
+
+Theorem C01_multicast_members_independent : forall (P : Type) (evs : list (mev P)) i,
+  ms_recv P (mrun P true evs (minit P)) i = own P i false evs.
+Proof. exact multicast_members_independent. Qed.
+Print Assumptions C01_multicast_members_independent.
+
+Theorem C01_multicast_other_members_invisible : forall (P : Type) (evs : list (mev P)) i,
+  ms_recv P (mrun P true evs (minit P)) i = ms_recv P (mrun P true (filter (touches P i) evs) (minit P)) i.
+Proof. exact multicast_other_members_invisible. Qed.
+Print Assumptions C01_multicast_other_members_invisible.
+
+Example C01_multicast_first_member_only_refuted :
+  let evs := [MJoin nat 0; MJoin nat 1; MPub nat 7; MLeave nat 0; MPub nat 8; MPub nat 9]%nat in
+  ms_recv nat (mrun nat false evs (minit nat)) 1%nat = [7]%nat /\
+  own nat 1%nat false evs = [7; 8; 9]%nat /\
+  ms_recv nat (mrun nat true evs (minit nat)) 1%nat = [7; 8; 9]%nat.
+Proof. exact first_member_only_refuted. Qed.
